@@ -25,7 +25,7 @@ STRUCT_WITHOUT = tskit.MetadataSchema(
     {"codec": "struct", "type": "object", "properties": {"k": {"type": "integer", "binaryFormat": "i"}}}
 )
 
-X_VARIANTS = ["plain", "rich", "struct", "rawbytes", "migrations", "mono_sites", "states", "edge_md", "redated"]
+X_VARIANTS = ["plain", "rich", "struct", "rawbytes", "migrations", "mono_sites", "states", "edge_md", "redated", "uniform"]
 
 
 def _set_md(table, schema, rows):
@@ -92,6 +92,10 @@ def decorate(ts, variant, diploid=False):
 
         _set_md(t.nodes, schemas.default_node_schema, [{"mn": 1.0 + u, "vr": 0.5, "unsplit_node_id": u, "note": f"n{u}"} for u in range(t.nodes.num_rows)])
         _set_md(t.mutations, schemas.default_mutation_schema, [{"mn": 0.5, "vr": 0.25, "annot": m} for m in range(t.mutations.num_rows)])
+    elif variant == "uniform":
+        # the same annotation on every row (byte-identical metadata), under a schema that accepts mn/vr
+        _set_md(t.nodes, PERMISSIVE, [{"src": "pipeline"} for _ in range(t.nodes.num_rows)])
+        _set_md(t.mutations, PERMISSIVE, [{} for _ in range(t.mutations.num_rows)])
     elif variant == "edge_md":
         _set_md(t.edges, PERMISSIVE, [{"e": e} for e in range(t.edges.num_rows)])
     else:
